@@ -332,10 +332,58 @@ loop:
 	// lost across a Suspend leaves the helper goroutine waiting: not our concern
 	qdone := make(chan struct{})
 	go func() { qwg.Wait(); close(qdone) }()
+	queriesOver := false
 	select {
 	case <-qdone:
+		queriesOver = true
 	case <-time.After(3 * time.Second):
 		w.Count("query_goroutines_still_waiting_for_an_answer", 1)
+	}
+	// after the queries are over (answered, answered late or given up):
+	// reports nobody is waiting for must not stall the input goroutine, and
+	// keys whose encoding looks like a reply (CSI 1;2 R = Shift+F3) are keys
+	if queriesOver && !sc.CloseDuringInput {
+		const sentinel = '\uF8F0'
+		stray := strings.Repeat("\x1b]11;rgb:1010/1010/1010\x1b\\", 2) + strings.Repeat("\x1b]10;rgb:d0d0/d0d0/d0d0\x07", 2) + strings.Repeat("\x1b]4;1;rgb:cdcd/0000/0000\x1b\\", 2)
+		sess.Con.Inject([]byte(stray + "\x1b[1;2R\x1b[1;2R\x1b[1;2R" + string(sentinel)))
+		f3 := 0
+		got := false
+		t := time.After(15 * time.Second)
+	after:
+		for !got {
+			select {
+			case ev := <-vx.Events():
+				if k, ok := ev.(vaxis.Key); ok {
+					if k.Keycode == sentinel {
+						got = true
+						continue
+					}
+					if k.Keycode == vaxis.KeyF03 && k.Modifiers&vaxis.ModShift != 0 {
+						f3++
+						continue
+					}
+				}
+				handle(ev)
+			case <-t:
+				break after
+			}
+		}
+		w.Count("post_query_input_phases", 1)
+		if !got {
+			dump := harness.AllStacks()
+			for _, blk := range strings.Split(dump, "\n\n") {
+				if strings.Contains(blk, "vaxis.(*Vaxis).handleSequence") && strings.Contains(blk, "[chan send") {
+					w.ViolationStack("wedge:input-goroutine-blocked-on-unawaited-reply", "reports that no query was waiting for (two each of OSC 11, OSC 10, OSC 4) stalled the input goroutine: later keys were not delivered", sc, "sentinel key not delivered within 15s", "reports without a waiting query are dropped or buffered, input continues", blk)
+					return
+				}
+			}
+			w.Inconclusive("post-query-sentinel-timeout-without-corroboration")
+			return
+		}
+		if f3 != 3 {
+			w.Violation("lost:key-taken-for-a-reply-after-the-query-was-over", fmt.Sprintf("3 Shift+F3 keys (CSI 1;2 R) typed after all cursor-position queries had returned: %d delivered", f3), sc, fmt.Sprint(f3), "3")
+			return
+		}
 	}
 	// spinner: after a processed Stop its goroutine must be gone (checked with the leak check)
 	if sp != nil {
